@@ -27,7 +27,7 @@ from vf import common, tlc, evidence, bobrun, projgen
 
 PROP = "C07"
 WEAK = ["BidIgnoresFingerprint", "BidIgnoresSrc", "BidIgnoresVars", "BidIgnoresDepBid", "NoPruneOnBidChange",
-        "InputsIgnoreFingerprint"]
+        "InputsIgnoreFingerprint", "BidIgnoresLocation"]
 ACTIONS = ["Edit", "Begin", "Prep", "DlNotTried", "DlPrune", "DlFetchOk", "DlFetchMiss", "DlHave", "Deps",
            "PkgSkip", "PkgBuild", "Installed"]
 
@@ -73,6 +73,7 @@ class Replay:
         self.invocations = 0
         self.nontrivial = set()
         self.bids = {}        # real artifact name -> (package, model bid term)
+        self.cur_w = "w1"
         self.clean_cache = {}
         self.log = []
 
@@ -85,7 +86,8 @@ class Replay:
         lib = ("lib", proj["srcl"])
         if p.endswith("lib"):
             return lib
-        return ("app", proj["pver"], proj["bver"], proj["V"], proj["fp"], lib)
+        reloc = proj.get("reloc", True)
+        return ("app", proj["pver"], proj["bver"], proj["V"], proj["fp"], reloc, "anywhere" if reloc else self.cur_w, lib)
 
     def clean(self, proj):
         key = projgen.proj_key(proj)
@@ -130,6 +132,7 @@ class Replay:
             if a["a"] != "Begin":
                 continue
             w, proj, mode = a["w"], a["proj"], a["mode"]
+            self.cur_w = w
             files, srcs = projgen.render_artifacts(proj, self.arch)
             bobrun.write_files(self.ws[w], files)
             for sub, fs in srcs.items():
@@ -173,8 +176,24 @@ class Replay:
             # P: equals the clean local build of this project state and fingerprint
             want = self.clean(proj)
             paths = bobrun.query_paths(self.ws[w], "app")
-            got = bobrun.walk_tree(os.path.join(self.ws[w], paths["app"]["dist"]))
-            if got != want["app"]:
+            dist = os.path.join(self.ws[w], paths["app"]["dist"])
+            got = bobrun.walk_tree(dist)
+            wanted = dict(want["app"])
+            if not proj.get("reloc", True):
+                # location dependent result: must name THIS workspace, everything else equals the clean build
+                where = ""
+                try:
+                    with open(os.path.join(dist, "where.txt")) as f:
+                        where = f.read().strip()
+                except OSError:
+                    pass
+                if not where.startswith(self.ws[w] + os.sep):
+                    self.viol("foreign-location-dependent-artifact-used", mode=mode, proj=proj, where=where, workspace=self.ws[w])
+                    return self
+                got.pop("where.txt", None)
+                wanted.pop("where.txt", None)
+                self.nontrivial.add("non-relocatable")
+            if got != wanted:
                 self.viol("download-build-differs-from-local-build", mode=mode, upload=a["upload"], proj=proj,
                           got=bobrun.tree_text(os.path.join(self.ws[w], paths["app"]["dist"]))[:1500])
                 return self
